@@ -115,7 +115,7 @@ func conservation(in []byte, obs *hc.LexRun) string {
 
 func checkC11(c *Ctx) error {
 	c.Ev = evidence.New("C11", c.Tier, c.Seed, "exploration",
-		"rule sets as lox accepts them, including rules that can match the empty string (about a third of the rules are left nullable when they come out nullable), fragments that accumulate, modes that are still open at the end of the input; inputs: sampled matches, truncations (ends in the middle of a construct), near matches, invalid UTF-8, every string up to a bound over small alphabets. Monitors on the real state machine under the real driver: (1) termination decided on logical state — the same rune offered in the same (state, mode, mode stack) configuration twice with no input consumed in between proves an endless loop; token count bounded; CPU budget as backstop; (2) conservation — the PushRune log is mirrored against the driver's documented behaviour to obtain byte offsets: emitted tokens, discarded stretches and ERROR stretches must tile [0, len) exactly and in order, driver tokens must be those stretches, EOF only at the end and with nothing pending. Non-trivial: inputs of at least 2 bytes on specs with a nullable rule, an accumulating fragment or a mode; distinct by spec+input.")
+		"rule sets as lox accepts them, including rules that can match the empty string (about a third of the rules are left nullable when they come out nullable), fragments that accumulate, modes that are still open at the end of the input, @pop_mode on rules of the default mode (popping an empty stack), non-greedy repetitions anywhere in an expression (nullable ones included); inputs: sampled matches, truncations (ends in the middle of a construct), near matches, invalid UTF-8, every string up to a bound over small alphabets. Monitors on the real state machine under the real driver: (1) termination decided on logical state — the same rune offered in the same (state, mode, mode stack) configuration twice with no input consumed in between proves an endless loop; token count bounded; CPU budget as backstop; (2) conservation — the PushRune log is mirrored against the driver's documented behaviour to obtain byte offsets: emitted tokens, discarded stretches and ERROR stretches must tile [0, len) exactly and in order, driver tokens must be those stretches, EOF only at the end and with nothing pending. Non-trivial: inputs of at least 2 bytes on specs with a nullable rule, an accumulating fragment or a mode; distinct by spec+input.")
 	c.Ev.Assumptions = []string{
 		"reference driver simplelexer v0.5.0: a consumed rune advances by its decoded width, an error skips to just after the next newline and resets the machine",
 		"an empty match that pushes or pops a mode is legitimate progress (working idiom); an empty match that changes nothing is not",
@@ -123,7 +123,7 @@ func checkC11(c *Ctx) error {
 	return runLexCheck(c, &lexCheckSpec{
 		id: "C11",
 		opts: func(r *rng.R) specgen.LexOpts {
-			return specgen.LexOpts{Wide: r.Chance(1, 3), Modes: r.Chance(2, 3), Frags: true, Macros: r.Chance(1, 3), NullablePct: 35, MaxRules: 5, BothModeActions: true, LoopOnlyModes: true}
+			return specgen.LexOpts{Wide: r.Chance(1, 3), Modes: r.Chance(2, 3), Frags: true, Macros: r.Chance(1, 3), NullablePct: 35, MaxRules: 5, BothModeActions: true, LoopOnlyModes: true, PopInDefault: true, NonGreedyOps: r.Chance(1, 3)}
 		},
 		nBatches: [2]int{3, 40}, nCLI: [2]int{1, 5}, per: 28,
 		nInputs: [2]int{200, 600}, exhLen: [2]int{5, 6},
